@@ -21,6 +21,7 @@ TOL = Tol(1e-9, 1e-10, scale="line")
 
 
 def split_scene(sc, k, frac, interface):
+    assert 0.0 < frac < 1.0, "a split puts the cut strictly inside the layer"
     d = json.loads(json.dumps(sc))
     nl = len(d["thickness"])
     def dup(lst):
@@ -190,7 +191,7 @@ def oracle(ctx, hints, effort):
         active = it % 3 == 2 and em != "nonscattering"
         sc = scenes.random_scene(rng, lossless=False, microstructure=ms, max_layers=6, atmosphere=False, thick=(0.05, 5.0), active=active)
         sc["emmodel"], sc["nmax"] = em, int(rng.choice([16, 32]))
-        splits = []
+        splits, extra = [], []
         nl = len(sc["thickness"])
         if it % 3 == 1 and it % 6 != 4 and not active:
             # optically deep, strongly scattering pack (optical depth well beyond 6) cut near the top of its deep layer: the new interface
@@ -202,7 +203,11 @@ def oracle(ctx, hints, effort):
             sc["micro"]["corr_length"] = [round(float(rng.uniform(2e-4, 3e-4)), 7), round(float(rng.uniform(3e-4, 4.5e-4)), 7)]
             sc["density"] = [round(float(rng.uniform(200, 300)), 1), round(float(rng.uniform(300, 400)), 1)]
             sc["emmodel"], sc["nmax"] = em, 16
-            splits = [(1, round(float(np.exp(rng.uniform(np.log(0.01), np.log(0.4)))), 4), "transparent")]
+            # a ladder of cut depths, so that one of the new interfaces lands between optical depth 6 and 20 whatever the draw
+            # (the window is a factor 2-3 wide and sits anywhere between 2 % and 90 % of the deep layer, depending on frequency and grain size)
+            j0 = float(np.exp(rng.uniform(np.log(0.01), np.log(0.018))))
+            extra = [[(1, round(j0 * 1.8 ** j, 4), "transparent")] for j in range(1, 8) if j0 * 1.8 ** j < 0.95]
+            splits = [(1, round(j0, 4), "transparent")]
             if rng.random() < 0.5:
                 splits.append((2, round(float(rng.uniform(0.05, 0.5)), 3), "flat"))
         elif it % 6 == 4 and not active:
@@ -222,20 +227,22 @@ def oracle(ctx, hints, effort):
             for _ in range(int(rng.integers(1, 5))):
                 splits.append((int(rng.integers(0, nl)), round(float(rng.uniform(0.05, 0.95)), 3), str(rng.choice(["flat", "transparent"]))))
                 nl += 1
-        try:
-            r = check_split(sc, active, splits)
-        except AssertionError:
-            continue
-        except Exception as e:  # noqa
-            from smrt.core.error import SMRTError
-            if isinstance(e, SMRTError):
+        for splits in [splits] + extra:
+            try:
+                r = check_split(sc, active, splits)
+            except AssertionError:
                 continue
-            raise
-        evals += 2
-        if r is not None:
-            key = ("active:" if active else "passive:") + "split:" + sc["emmodel"]
-            findings.setdefault(key, Finding(key, f"splitting layers {splits} changes the result by {r[0]:.3g}",
-                                             {"scene": sc, "active": active, "splits": splits}, r[0], r[1]))
+            except Exception as e:  # noqa
+                from smrt.core.error import SMRTError
+                if isinstance(e, SMRTError):
+                    continue
+                raise
+            evals += 2
+            if r is not None:
+                key = ("active:" if active else "passive:") + "split:" + sc["emmodel"]
+                findings.setdefault(key, Finding(key, f"splitting layers {splits} changes the result by {r[0]:.3g}",
+                                                 {"scene": sc, "active": active, "splits": splits}, r[0], r[1]))
+                break
     return list(findings.values()), evals
 
 
